@@ -373,6 +373,13 @@ func (d *DotGit) NewObjectPack() (*PackWriter, error) {
 	if cleanErr != nil {
 		return nil, cleanErr
 	}
+	// The pack list cached under ExclusiveAccess may be regenerated by a
+	// lookup while this writer is still open; drop it again once the pack is
+	// in place so that it is found.
+	pw.onSaved = func() {
+		d.packMap = nil
+		d.packList = nil
+	}
 	return pw, nil
 }
 
@@ -810,7 +817,15 @@ func (d *DotGit) DeleteOldObjectPackAndIndex(hash plumbing.Hash, t time.Time) er
 func (d *DotGit) NewObject() (*ObjectWriter, error) {
 	d.cleanObjectList()
 
-	return newObjectWriter(d.fs, d.options.ObjectFormat)
+	w, err := newObjectWriter(d.fs, d.options.ObjectFormat)
+	if err != nil {
+		return nil, err
+	}
+	// The object list cached under ExclusiveAccess may be regenerated by a
+	// lookup while this writer is still open; drop it again once the object
+	// is in place so that it is found.
+	w.onSaved = d.cleanObjectList
+	return w, nil
 }
 
 // ObjectsWithPrefix returns the hashes of objects that have the given prefix.
